@@ -22,7 +22,8 @@ PROP = dict(
         "bun/pgdialect rendering and scanning, encoding/json, lib/pq CopyIn text: exercised (closed loop), not modelled",
     ],
     assumptions=[
-        "timestamps are integers (microseconds in the store, seconds in generated histories); names are interned in an order-"
+        "timestamps are integers, microseconds in the store, in the generated histories and in the model (several dates inside one "
+        "second, points in time 1 us / a fraction / a second around every date); names are interned in an order-"
         "preserving way (ORDER BY / GROUP BY / jsonb key order agree with the numbers)",
         "metadata values are strings (metadata.Metadata); a transaction's metadata is a JSON object, accountMetadata is a JSON object "
         "(a Go nil map is rendered as JSON null, on which jsonb_each_text raises: outside the model)",
